@@ -27,6 +27,7 @@ type trailEntry struct {
 	n       int
 	cond    *Term
 	forced  bool
+	spec    bool // decided inside a speculated arm (never asserted, no alternative)
 	altDone bool
 	pushed  bool
 	what    string
@@ -177,12 +178,25 @@ func (e *Explorer) Branch(c *Term, what string) bool {
 	if e.NoFork > 0 {
 		// inside a speculated arm: a branch that is decided by the path
 		// condition and the arm guards needs no fork
+		if e.pos < len(e.trail) {
+			// re-execution: reproduce the recorded in-arm decision (or the abort)
+			t := &e.trail[e.pos]
+			if t.kind == 0 && t.spec {
+				e.pos++
+				return t.val == 1
+			}
+			panic(&specAbort{"fork inside arm: " + what})
+		}
 		if e.ArmGuards != nil && len(e.defs) == 0 {
 			gs := e.ArmGuards()
 			if r := e.S.CheckWith(append(gs, c)...); r == "unsat" {
+				e.trail = append(e.trail, trailEntry{kind: 0, val: 0, forced: true, spec: true, what: what})
+				e.pos++
 				return false
 			}
 			if r := e.S.CheckWith(append(gs, Not(c))...); r == "unsat" {
+				e.trail = append(e.trail, trailEntry{kind: 0, val: 1, forced: true, spec: true, what: what})
+				e.pos++
 				return true
 			}
 		}
@@ -191,7 +205,7 @@ func (e *Explorer) Branch(c *Term, what string) bool {
 	e.flushDefs()
 	if e.pos < len(e.trail) {
 		t := &e.trail[e.pos]
-		if t.kind != 0 {
+		if t.kind != 0 || t.spec {
 			panic(fmt.Sprintf("non-deterministic re-execution: expected kind %d (%s) got branch %s", t.kind, t.what, what))
 		}
 		e.pos++
